@@ -117,6 +117,23 @@ def run(ctx):
                 ctx.ob("R1", "%s/%s" % (st, m), fw, ("forwards `%s` to %s" % (m, sorted(set(recv)))) if fw else "overrides `%s` without forwarding to the wrapped language" % m,
                        where=prog.impl_method(impl, m).loc() if prog.impl_method(impl, m) else None)
     # ---- R2 -------------------------------------------------------------------------------------
+    # the shared pre-processing routine, whatever it is called: the free function of the language crate that the
+    # pre_process_pattern methods of the built-in languages call (majority; the minority is reported per language below)
+    from collections import Counter
+    votes = Counter()
+    for impl in builtins:
+        if "pre_process_pattern" in impl.get("inherited", []):
+            continue
+        pp = prog.impl_method(impl, "pre_process_pattern")
+        if pp is None:
+            continue
+        for c in pp.calls:
+            for t in prog.call_targets(c):
+                g = prog.fns.get(t)
+                if g is not None and g.crate == "ast_grep_language" and not g.impl_self and not g.is_closure:
+                    votes[t] += 1
+    shared_id = votes.most_common(1)[0][0] if votes else "ast_grep_language::pre_process_pattern"
+    ctx.ob("R2", "shared pre-processing routine identified", bool(votes), "%s is called by the pre_process_pattern of %d built-in languages" % (shared_id, votes.get(shared_id, 0)), nontrivial=False)
     for impl in builtins:
         st = impl["self"]
         inh = set(impl.get("inherited", []))
@@ -128,7 +145,7 @@ def run(ctx):
         ok = exp_over == pre_over and not mv_over and not emv_over
         if ok and exp_over:
             pp = prog.impl_method(impl, "pre_process_pattern")
-            cs = [c for c in pp.calls if c.best == "ast_grep_language::pre_process_pattern"]
+            cs = [c for c in pp.calls if c.best == shared_id]
             shared = False
             if cs:
                 roots = deep_roots(prog, pp, cs[0].args[0])
